@@ -80,6 +80,12 @@ Close Scope uint63_scope.
 Definition check_parse_material (c : list string * res (string * option string)) : bool :=
   res_eqb (pair_eqb String.eqb (option_eqb String.eqb)) (parse_material (fst c)) (snd c).
 
+(* ---- LIKE n BUT MAT= RHO= ---- *)
+Definition check_cell_material
+  (c : list string * option string * option string * res (string * option string)) : bool :=
+  let '(toks, kmat, krho, expected) := c in
+  res_eqb (pair_eqb String.eqb (option_eqb String.eqb)) (cell_material toks kmat krho) expected.
+
 (* ---- pot_fill on synthetic dictionaries ---- *)
 Definition zpair_eqb (a b : Z * Z) : bool := (fst a =? fst b)%Z && (snd a =? snd b)%Z.
 
